@@ -24,6 +24,10 @@ var (
 	// sqlHook is consulted before/after every write-path driver call: op is begin | exec | commit | committed.
 	// It may panic with crashPanic (the process dies there).
 	sqlHook func(op, query string)
+	// sqlFail may make a write-path call fail: a non-nil error is returned to database/sql instead of executing the
+	// statement; for op "commit" the transaction is rolled back and the error returned (a COMMIT that fails, e.g.
+	// SQLITE_BUSY / SQLITE_FULL).
+	sqlFail func(op, query string) error
 )
 
 type simDriver struct{ base driver.Driver }
@@ -138,6 +142,12 @@ func (s *simSQLStmt) QueryContext(ctx context.Context, args []driver.NamedValue)
 type simSQLTx struct{ driver.Tx }
 
 func (t *simSQLTx) Commit() error {
+	if sqlFail != nil {
+		if err := sqlFail("commit", ""); err != nil {
+			_ = t.Tx.Rollback()
+			return err
+		}
+	}
 	hookSQL("commit", "")
 	err := t.Tx.Commit()
 	if err == nil {
